@@ -588,6 +588,13 @@ impl<'a> Model<'a> {
                 MO::Fail(cs) if !cs.is_empty() => Ok(MO::Fail(cs)),
                 _ => Err(Silent("conversion of a value (C14's ground)")),
             },
+            // a numeric built-in applied to a string or a list: a type error, i.e. a failure other
+            // than absence (C08: has/coalesce propagate it)
+            E::NCall(n, args) if args.len() == 1 && !self.case.named.contains_key(n) && ["abs", "floor", "ceil", "sqrt"].contains(&n.as_str()) => match self.definite(&args[0])? {
+                MO::Fail(cs) if !cs.is_empty() => Ok(MO::Fail(cs)),
+                MO::Val(V::Str(_)) | MO::Val(V::List(_)) => Ok(MO::Fail(vec![Class::Argument, Class::Value, Class::InvalidOp])),
+                _ => Err(Silent("numeric built-in on a number (C15's ground)")),
+            },
             E::NCall(..) => Err(Silent("call by a colliding name (C12's ground)")),
             // a method of a receiver that fails fails the same way (so an absent receiver
             // stays absent); on a receiver that evaluates, what the built-in computes is
